@@ -124,6 +124,7 @@ struct Values
   int variant = 0;
   std::vector<nostd::shared_ptr<trace::Span>> spans;           // index s (1..)
   std::vector<nostd::shared_ptr<trace::SpanContext>> spanctx;  // plain value alternative
+  std::vector<nostd::shared_ptr<opentelemetry::baggage::Baggage>> bags;  // plain value alternative
   Values()
   {
     spans.resize(64);
@@ -138,15 +139,29 @@ struct Values
           trace::SpanContext(trace::TraceId(tid), trace::SpanId(sid), trace::TraceFlags(s & 1), false)));
     }
     spanctx.resize(64);
+    bags.resize(64);
     for (int v = 1; v < 64; ++v)
+    {
       spanctx[v] = nostd::shared_ptr<trace::SpanContext>(new trace::SpanContext(false, false));
+      bags[v]    = nostd::shared_ptr<opentelemetry::baggage::Baggage>(new opentelemetry::baggage::Baggage());
+    }
   }
   ContextValue make(int v) const
   {
     if (v > 100)
       return ContextValue(spans[static_cast<size_t>(v - 100)]);
-    switch ((v + variant) % 4)
+    if (v == 99)
+      return ContextValue{};  // the EMPTY value (monostate): "clear a key"
+    // every alternative of ContextValue: bool (values 1, 2 only), int64, uint64, double,
+    // shared_ptr<SpanContext>, shared_ptr<Baggage>; shared_ptr<Span> is the 100+s range
+    switch ((v + variant) % 6)
     {
+      case 4:
+        if (v <= 2)
+          return ContextValue(v == 1);
+        return ContextValue(static_cast<int64_t>(-(1000 + v)));
+      case 5:
+        return ContextValue(bags[static_cast<size_t>(v)]);
       case 0:
         return ContextValue(static_cast<int64_t>(-(1000 + v)));
       case 1:
@@ -162,6 +177,16 @@ struct Values
   {
     if (nostd::holds_alternative<nostd::monostate>(cv))
       return 0;
+    if (nostd::holds_alternative<bool>(cv))
+      return nostd::get<bool>(cv) ? 1 : 2;
+    if (nostd::holds_alternative<nostd::shared_ptr<opentelemetry::baggage::Baggage>>(cv))
+    {
+      auto &p = nostd::get<nostd::shared_ptr<opentelemetry::baggage::Baggage>>(cv);
+      for (int v = 1; v < 64; ++v)
+        if (bags[v].get() == p.get())
+          return v;
+      return -1;
+    }
     if (nostd::holds_alternative<int64_t>(cv))
     {
       int64_t x = nostd::get<int64_t>(cv);
@@ -737,7 +762,7 @@ struct Prog
       Known &par = pick_live();
       int pid    = par.id;
       int k      = 1 + pick(static_cast<size_t>(nk));
-      int v      = (pick(5) == 0) ? 100 + 1 + pick(6) : 1 + pick(12);
+      int v      = (pick(5) == 0) ? 100 + 1 + pick(6) : (pick(7) == 0 ? 99 : 1 + pick(12));
       Context made;
       {
         KeyBuf kb(KeyBytes(k, kv));
@@ -762,7 +787,7 @@ struct Prog
       std::vector<std::pair<std::string, ContextValue>> c;
       for (int k : keys)
       {
-        int v = (pick(5) == 0) ? 100 + 1 + pick(6) : 1 + pick(12);
+        int v = (pick(5) == 0) ? 100 + 1 + pick(6) : (pick(6) == 0 ? 99 : 1 + pick(12));
         m.push_back(json::array({k, v}));
         c.emplace_back(KeyBytes(k, kv), vals->make(v));
       }
